@@ -755,4 +755,238 @@ theorem rdUuidEra_rt (p : Int) (u rest : Bytes) (hu : isUUID u) :
         rw [vString_rt 32 _ _ (by omega) hs]; simp only [seq_ok]
         rw [parseUndashed_rt u hu]
 
+/-! ## the NBT hypothesis is decidable: a blob the skipper accepts exactly is self-delimiting -/
+
+theorem skipBytes_app (n : Nat) (bs r x : Bytes) (h : skipBytes n bs = some r) :
+    skipBytes n (bs ++ x) = some (r ++ x) := by
+  unfold skipBytes at *
+  split at h
+  · rename_i hn
+    have : n ≤ (bs ++ x).length := by simp; omega
+    simp only [this, if_true]
+    injection h with h
+    rw [← h, List.drop_append_of_le_length hn]
+  · cases h
+
+theorem readFull_app (n : Nat) (bs a r x : Bytes) (h : readFull n bs = .ok (a, r)) :
+    readFull n (bs ++ x) = .ok (a, r ++ x) := by
+  unfold readFull at *
+  split at h
+  · rename_i hn
+    have : n ≤ (bs ++ x).length := by simp; omega
+    simp only [this, if_true]
+    injection h with h
+    injection h with h1 h2
+    rw [← h1, ← h2, List.take_append_of_le_length hn, List.drop_append_of_le_length hn]
+  · cases h
+
+theorem readUint_app (n : Nat) (bs : Bytes) (v : Nat) (r x : Bytes) (h : readUint n bs = .ok (v, r)) :
+    readUint n (bs ++ x) = .ok (v, r ++ x) := by
+  unfold readUint at *
+  cases hf : readFull n bs with
+  | error e => rw [hf] at h; cases h
+  | ok p =>
+    obtain ⟨a, r'⟩ := p
+    rw [hf] at h
+    rw [readFull_app n bs a r' x hf]
+    simp only at h ⊢
+    injection h with h
+    injection h with h1 h2
+    rw [h1, h2]
+
+theorem readInt_app (n : Nat) (bs : Bytes) (v : Int) (r x : Bytes) (h : readInt n bs = .ok (v, r)) :
+    readInt n (bs ++ x) = .ok (v, r ++ x) := by
+  unfold readInt at *
+  cases hf : readUint n bs with
+  | error e => rw [hf] at h; cases h
+  | ok p =>
+    obtain ⟨a, r'⟩ := p
+    rw [hf] at h
+    rw [readUint_app n bs a r' x hf]
+    simp only at h ⊢
+    injection h with h
+    injection h with h1 h2
+    rw [h1, h2]
+
+theorem skipArray_app (w : Nat) (bs r x : Bytes) (h : skipArray w bs = some r) :
+    skipArray w (bs ++ x) = some (r ++ x) := by
+  unfold skipArray at *
+  cases hf : readInt 4 bs with
+  | error e => rw [hf] at h; cases h
+  | ok p =>
+    obtain ⟨len, r'⟩ := p
+    rw [hf] at h
+    rw [readInt_app 4 bs len r' x hf]
+    simp only at h ⊢
+    split at h
+    · cases h
+    · rename_i hl
+      simp only [hl, if_false]
+      exact skipBytes_app _ _ _ _ h
+
+theorem skipUtf_app (bs r x : Bytes) (h : skipUtf bs = some r) : skipUtf (bs ++ x) = some (r ++ x) := by
+  unfold skipUtf at *
+  cases hf : readUint 2 bs with
+  | error e => rw [hf] at h; cases h
+  | ok p =>
+    obtain ⟨len, r'⟩ := p
+    rw [hf] at h
+    rw [readUint_app 2 bs len r' x hf]
+    simp only at h ⊢
+    exact skipBytes_app _ _ _ _ h
+
+theorem nbtSkip_app (f : Nat) : ∀ (m : NbtMode) (bs r x : Bytes) (k : Nat),
+    nbtSkip f m bs = some r → nbtSkip (f + k) m (bs ++ x) = some (r ++ x) := by
+  induction f with
+  | zero => intro m bs r x k h; simp [nbtSkip] at h
+  | succ f ih =>
+    intro m bs r x k h
+    rw [show f + 1 + k = (f + k) + 1 by omega]
+    cases m with
+    | payload t =>
+      simp only [nbtSkip] at h ⊢
+      by_cases h1 : t = 1
+      · simp only [h1, if_true] at h ⊢; exact skipBytes_app _ _ _ _ h
+      simp only [h1, if_false] at h ⊢
+      by_cases h2 : t = 2
+      · simp only [h2, if_true] at h ⊢; exact skipBytes_app _ _ _ _ h
+      simp only [h2, if_false] at h ⊢
+      by_cases h3 : t = 3
+      · simp only [h3, if_true] at h ⊢; exact skipBytes_app _ _ _ _ h
+      simp only [h3, if_false] at h ⊢
+      by_cases h4 : t = 4
+      · simp only [h4, if_true] at h ⊢; exact skipBytes_app _ _ _ _ h
+      simp only [h4, if_false] at h ⊢
+      by_cases h5 : t = 5
+      · simp only [h5, if_true] at h ⊢; exact skipBytes_app _ _ _ _ h
+      simp only [h5, if_false] at h ⊢
+      by_cases h6 : t = 6
+      · simp only [h6, if_true] at h ⊢; exact skipBytes_app _ _ _ _ h
+      simp only [h6, if_false] at h ⊢
+      by_cases h7 : t = 7
+      · simp only [h7, if_true] at h ⊢; exact skipArray_app _ _ _ _ h
+      simp only [h7, if_false] at h ⊢
+      by_cases h8 : t = 8
+      · simp only [h8, if_true] at h ⊢; exact skipUtf_app _ _ _ h
+      simp only [h8, if_false] at h ⊢
+      by_cases h9 : t = 9
+      · simp only [h9, if_true] at h ⊢
+        cases bs with
+        | nil => simp at h
+        | cons et r0 =>
+          simp only [List.cons_append] at h ⊢
+          cases hf : readInt 4 r0 with
+          | error e => rw [hf] at h; simp at h
+          | ok p =>
+            obtain ⟨cnt, r'⟩ := p
+            rw [hf] at h
+            rw [readInt_app 4 r0 cnt r' x hf]
+            simp only at h ⊢
+            by_cases hc : cnt ≤ 0
+            · simp only [hc, if_true] at h ⊢
+              injection h with h; rw [h]
+            · simp only [hc, if_false] at h ⊢
+              by_cases he : et = 0
+              · simp only [he, if_true] at h; cases h
+              · simp only [he, if_false] at h ⊢
+                exact ih _ _ _ _ _ h
+      simp only [h9, if_false] at h ⊢
+      by_cases h10 : t = 10
+      · simp only [h10, if_true] at h ⊢; exact ih _ _ _ _ _ h
+      simp only [h10, if_false] at h ⊢
+      by_cases h11 : t = 11
+      · simp only [h11, if_true] at h ⊢; exact skipArray_app _ _ _ _ h
+      simp only [h11, if_false] at h ⊢
+      by_cases h12 : t = 12
+      · simp only [h12, if_true] at h ⊢; exact skipArray_app _ _ _ _ h
+      simp only [h12, if_false] at h
+      cases h
+    | list t n =>
+      cases n with
+      | zero =>
+        simp only [nbtSkip] at h ⊢
+        injection h with h; rw [h]
+      | succ n =>
+        simp only [nbtSkip] at h ⊢
+        cases hp : nbtSkip f (.payload t) bs with
+        | none => rw [hp] at h; cases h
+        | some r1 =>
+          rw [hp] at h
+          rw [ih _ _ _ x k hp]
+          simp only at h ⊢
+          exact ih _ _ _ _ _ h
+    | compound =>
+      cases bs with
+      | nil => simp [nbtSkip] at h
+      | cons t r0 =>
+        simp only [List.cons_append, nbtSkip] at h ⊢
+        by_cases ht : t = 0
+        · simp only [ht, if_true] at h ⊢
+          injection h with h; rw [h]
+        · simp only [ht, if_false] at h ⊢
+          cases hu : skipUtf r0 with
+          | none => rw [hu] at h; cases h
+          | some r1 =>
+            rw [hu] at h
+            rw [skipUtf_app _ _ x hu]
+            simp only at h ⊢
+            cases hp : nbtSkip f (.payload t) r1 with
+            | none => rw [hp] at h; cases h
+            | some r2 =>
+              rw [hp] at h
+              rw [ih _ _ _ x k hp]
+              simp only at h ⊢
+              exact ih _ _ _ _ _ h
+
+/-- a blob that the skipper accepts exactly (nothing left over) is self-delimiting in front of
+    every continuation: the NBT hypothesis is decidable -/
+theorem wfNbt_of_closed (blob : Bytes) (h : vNbt blob = .ok (blob, [])) : WfNbt blob := by
+  intro rest
+  unfold vNbt at h ⊢
+  cases blob with
+  | nil => simp at h
+  | cons t r =>
+    simp only [List.cons_append] at h ⊢
+    by_cases ht : t = 0
+    · simp [ht] at h
+    · simp only [ht, if_false] at h ⊢
+      cases hs : nbtSkip (2 * r.length + 7 + 1) (.payload t) r with
+      | none => rw [hs] at h; cases h
+      | some r0 =>
+        rw [hs] at h
+        simp only at h
+        injection h with h
+        injection h with h1 h2
+        subst h2
+        have := nbtSkip_app _ _ _ _ rest (2 * rest.length) hs
+        rw [show 2 * (r ++ rest).length + 7 + 1 = 2 * r.length + 7 + 1 + 2 * rest.length by simp; omega]
+        rw [this]
+        simp only [List.nil_append, List.length_cons, List.length_append]
+        rw [show r.length + rest.length + 1 - rest.length = r.length + 1 by omega]
+        simp
+
+
+theorem nbtClosed_spec (blob : Bytes) (h : nbtClosed blob = true) : vNbt blob = .ok (blob, []) := by
+  unfold nbtClosed at h
+  split at h
+  · rename_i b hb
+    have : b = blob := by simpa using h
+    rw [hb, this]
+  · cases h
+
+theorem compNbtOk_of_closed (p : Int) (c : Comp) (h : compNbtClosed p c) : compNbtOk p c :=
+  fun hp => wfNbt_of_closed _ (nbtClosed_spec _ (h hp))
+
+theorem entryNbtOk_of_closed (p : Int) (acts : List Action) (e : Entry) (h : entryNbtClosed p acts e) :
+    entryNbtOk p acts e :=
+  fun hc c hs => compNbtOk_of_closed p c (optAll_some (h hc) hs)
+
+/-- the uuid gate writes in the 1.19.1–1.20.1 era is the intended holder -/
+theorem loginHolder_eq (s : ServerLogin) : loginHolder s = meantHolder s := by
+  unfold loginHolder meantHolder keyHolderSet
+  cases hk : s.key with
+  | none => simp
+  | some k => by_cases hh : (k.holder != nilUUID) = true <;> simp [hh]
+
+
 end Gate.C07
